@@ -274,7 +274,9 @@ func runC19(p *Program, e *Engine, r *Result, tier string) {
 					nPrefix++
 					return true
 				}
-				return c.has(func(l Lit) bool { return l.A.Kind == AkCmp && !l.Neg && l.A.Op == "==" && (l.A.Subj == ep || l.A.K == ep) })
+				return c.has(func(l Lit) bool {
+					return l.A.Kind == AkCmp && !l.Neg && l.A.Op == "==" && (l.A.Subj == ep || l.A.K == ep)
+				})
 			})
 			wit := "selected by path == old || HasPrefix(path, old + \"/\")"
 			if !okSel {
